@@ -130,7 +130,8 @@ func (vc *VC) instr(fr *Frame, st *State, ins ssa.Instruction) {
 	case *ssa.FieldAddr:
 		p := vc.val(fr, t.X)
 		vc.nilCheck(fr, st, t.X, p, t.Pos(), "fieldaddr")
-		vc.defVal(fr, t, FldPtr(p, t.Field))
+		fp := vc.defVal(fr, t, FldPtr(p, t.Field))
+		vc.q.Assert(vc.tyofAssume(fp, t.Type().Underlying().(*types.Pointer).Elem()))
 	case *ssa.Index:
 		x := vc.val(fr, t.X)
 		i := vc.asInt(vc.val(fr, t.Index))
@@ -151,7 +152,8 @@ func (vc *VC) instr(fr *Frame, st *State, ins ssa.Instruction) {
 		switch u := t.X.Type().Underlying().(type) {
 		case *types.Slice:
 			vc.boundsObl(fr, st, i, SLen(x), t.Pos())
-			vc.defVal(fr, t, SliceElemPtr(x, i))
+			ep := vc.defVal(fr, t, SliceElemPtr(x, i))
+			vc.q.Assert(vc.tyofAssume(ep, u.Elem()))
 		case *types.Pointer:
 			arr := u.Elem().Underlying().(*types.Array)
 			vc.nilCheck(fr, st, t.X, x, t.Pos(), "indexaddr")
